@@ -195,6 +195,47 @@ def amulObj (r : Ref) (k : Int) : AM G Ref := do
     | .fresh g o => aallocPJ g o
   | .inf, .jac _ _ _ => raise .other
 
+/-- abstract `self * self_mul + other * other_mul` -/
+def amulMulAdd (i j : Nat) (sm om : Int) : AM G Ref := do
+  let r1 ← amulObj (.obj i) sm
+  let r2 ← amulObj (.obj j) om
+  aaddObj r1 r2
+
+/-- abstract `_maybe_precompute()`: succeeds iff the attributes allow it; reports whether a table exists afterwards
+(= the generator flag) -/
+def aprecompute (_g : G) (o : Option Int) (gen : Bool) : Res Bool :=
+  if genOK o gen then .ok gen else .error .assertionError
+
+def amulAddMain (i j : Nat) (sm om : Int) : AM G Ref := do
+  let tP ← aupdPJ i aprecompute
+  let tQ ← aupdPJ j aprecompute
+  if tP && tQ then amulMulAdd i j sm om
+  else do
+    let ord ← aupdPJ i (fun _ o _ => .ok o)
+    let (sm, om) := match truthy ord with
+      | some n => (pmod sm n, pmod om n)
+      | none => (sm, om)
+    let (g, og) ← aupdPJ i (fun g o _ => .ok (g, o))
+    let (h, _) ← aupdPJ j (fun g o _ => .ok (g, o))
+    if g + h = 0 then amulMulAdd i j sm om
+    else aallocPJ (sm • g + om • h) og
+
+def amulAddObj (r : Ref) (sm : Int) (s : Ref) (om : Int) : AM G Ref := do
+  match r, ← agetPJ r with
+  | .obj i, some _ => do
+    let other ← agetPt s
+    if (match other with | .inf => true | _ => false) || om == 0 then amulObj r sm
+    else if sm == 0 then amulObj s om
+    else
+      match s, other with
+      | .obj j, .jac _ _ _ => amulAddMain i j sm om
+      | _, .aff g o => do
+        match ← alloc (.pj g o false) with
+        | .obj j => amulAddMain i j sm om
+        | .inf => raise .other
+      | _, _ => raise .other
+  | _, _ => do let _ ← agetPt r; raise .attributeError
+
 def aeqObj (r s : Ref) : AM G Bool := do
   let a ← agetPt r
   let b ← agetPt s
@@ -281,6 +322,23 @@ def akeySerObj (k : Nat) (enc : Nat) : AM G Bytes := do
     else if enc = 1 then AM.pure ([4] ++ xs ++ ys)
     else AM.pure ((if y % 2 = 1 then [7] else [6]) ++ xs ++ ys)
 
+def akeyVerifyObj (k : Nat) (hash r s : Int) : AM G Bool := do
+  let (g, q) ← agetKey k
+  let .jac _ go _ ← agetPt g | raise .other
+  let some n := go | raise .typeError
+  if Gen.Ecdsa.verifies_r_out r n then AM.pure false
+  else if Gen.Ecdsa.verifies_s_out s n then AM.pure false
+  else do
+    let c ← lift (inverseMod s n)
+    let u1 := Gen.Ecdsa.verifies_u1 hash c n
+    let u2 := Gen.Ecdsa.verifies_u2 r c n
+    let xy ← amulAddObj g u1 q u2
+    let v ← agetPt xy
+    if (match v with | .inf => true | _ => false) then AM.pure false
+    else do
+      let some x ← areadX sp xy | raise .typeError
+      AM.pure (Gen.Ecdsa.verifies_ret (Gen.Ecdsa.verifies_v x n) r)
+
 def akeyEqObj (k1 k2 : Nat) : AM G Bool := do
   let (_, q1) ← agetKey k1
   let (_, q2) ← agetKey k2
@@ -322,9 +380,8 @@ def arun {α} (m : AM G α) (f : α → Out) (h : AHeap G) : AHeap G × Out :=
   | (.ok a, h') => (h', f a)
   | (.error e, h') => (h', .err e)
 
-/-- the operations covered by the refinement proof so far (`mul_add` and `verifies`, which is built on it, are
-modelled, driven against the real code and searched, but their refinement is not yet proved; arithmetic on two
-legacy `Point` operands involves no hidden state at all — those objects are immutable) -/
+/-- one public operation on the heap of values (arithmetic whose operands are all legacy `Point`s is answered `.other`:
+it is outside the refinement — those objects are immutable, no hidden state is involved) -/
 def astep (h : AHeap G) : Op → AHeap G × Out
   | .x r => arun (areadX sp r) .optInt h
   | .y r => arun (areadY sp r) .optInt h
@@ -351,8 +408,8 @@ def astep (h : AHeap G) : Op → AHeap G × Out
       match h[sk]? with
       | some (.skey _ vk) => AM.pure (Ref.obj vk)
       | _ => raise .other) .ref h
-  | .mulAdd _ _ _ _ => (h, .err .other)
-  | .keyVerify _ _ _ _ => (h, .err .other)
+  | .mulAdd r a s b => arun (amulAddObj r a s b) .ref h
+  | .keyVerify k e r s => arun (akeyVerifyObj sp k e r s) .bool h
 
 def aoutputs (h : AHeap G) : List Op → List Out
   | [] => []
